@@ -204,6 +204,23 @@ func suiteDiffReport(c *Ctx) error {
 			newSrc += strings.TrimPrefix(sn, "package genpkg\n")
 			plan = append(plan, plannedFn{"Stress", "Stress", "edited"})
 		}
+		// a renamed method that recurses through a method VALUE of itself (`rest := t.next.Walk; rest()`),
+		// next to an added method of similar shape: the renamed copy must score 1.0 with its old self
+		{
+			chain := func(name string) string {
+				return "func (t *Chain) " + name + "() int {\n\tif t == nil {\n\t\treturn 0\n\t}\n\trest := t.next." + name + "\n\treturn chainWeight() + rest()\n}\n\n"
+			}
+			common := "type Chain struct {\n\tnext *Chain\n\tv    int\n}\n\nfunc chainWeight() int { return 1 }\n\n"
+			oldSrc += common + chain("Walk")
+			newSrc += common + chain("Depth") + "func (t *Chain) Size() int {\n\tif t == nil {\n\t\treturn 0\n\t}\n\treturn chainWeight() + t.v\n}\n\n"
+			plan = append(plan, plannedFn{"(*Chain).Walk", "(*Chain).Depth", "renamed"}, plannedFn{"", "(*Chain).Size", "added"},
+				plannedFn{"chainWeight", "chainWeight", "kept"})
+		}
+		// a function REWRITTEN wholesale under its old name (other signature, other callees, other control
+		// flow): the two versions have nothing in common but the name, and the name is what pairs them
+		oldSrc += "func Process(xs []int) int {\n\tt := 0\n\tfor i := 0; i < len(xs); i++ {\n\t\tif xs[i] > t {\n\t\t\tt = xs[i]\n\t\t}\n\t}\n\treturn t\n}\n\n"
+		newSrc += "func Process(name string, m map[string]int, out chan<- string) (s string, ok bool) {\n\tdefer func() {\n\t\tif r := recover(); r != nil {\n\t\t\ts, ok = \"\", false\n\t\t}\n\t}()\n\tv, found := m[name]\n\tif !found {\n\t\tpanic(name)\n\t}\n\tswitch {\n\tcase v > 10:\n\t\tgo func() { out <- name }()\n\t\treturn name + \"!\", true\n\tcase v < 0:\n\t\tdelete(m, name)\n\t}\n\treturn name, false\n}\n\n"
+		plan = append(plan, plannedFn{"Process", "Process", "edited"})
 		// one pair in three lives in package directories whose last path element contains a dot and
 		// differs between the sides (store.orig/ -> store/, yaml.v2/ -> yaml.v3/): the short names the
 		// report pairs by must not depend on how the package path is spelt
